@@ -1,8 +1,11 @@
 #!/usr/bin/env python3
 """py2lean: syntax-directed translation of the BER primitive functions of sansldap/asn1.py to Lean 4.
 
-Usage:  /venv/bin/python harness/py2lean.py [--check] [--out FILE] [--src FILE]
-        env VERIF_REPO (default /repo): the source read is $VERIF_REPO/src/sansldap/asn1.py
+Usage:  /venv/bin/python harness/py2lean.py [--check] [--only asn1|filter] [--out FILE] [--src FILE]
+                                            [--filter-out FILE] [--filter-src FILE]
+        env VERIF_REPO (default /repo): the sources read are $VERIF_REPO/src/sansldap/asn1.py and _filter.py
+        (second profile: the filter text parser of _filter.py -> lean/Verif/Generated/FilterGen.lean,
+         namespace Verif.FilterGen; see design_notes/py2lean_filter.md)
 
 The source is only PARSED (module `ast`); the library is neither imported nor executed.
 Output: lean/Verif/Generated/Asn1Gen.lean (namespace Verif.Asn1Gen), rewritten on every run.
@@ -29,6 +32,7 @@ import sys
 
 HERE = os.path.dirname(os.path.abspath(__file__))
 DEFAULT_OUT = os.path.join(HERE, "..", "lean", "Verif", "Generated", "Asn1Gen.lean")
+DEFAULT_FILTER_OUT = os.path.join(HERE, "..", "lean", "Verif", "Generated", "FilterGen.lean")
 
 TARGETS = [
     "_pack_asn1_octet_number",
@@ -42,6 +46,60 @@ TARGETS = [
     "_pack_asn1_boolean",
 ]
 
+FILTER_TARGETS = [
+    "_unpack_filter_extensible_header",
+    "_unpack_filter_substrings_value",
+    "_unpack_simple_filter",
+    "_unpack_filter",
+    "_unpack_complex_filter",
+    "LDAPFilter.from_string",
+]
+
+
+class Profile:
+    """what differs between the two source files (see design_notes/py2lean_filter.md)"""
+
+    def __init__(self, name):
+        self.name = name
+        self.ext = name == "filter"           # the extended subset (strings, lists, recursion, ...)
+        if name == "asn1":
+            self.file = "asn1.py"
+            self.namespace = "Verif.Asn1Gen"
+            self.imports = ["Verif.PyRt"]
+            self.opens = "Verif Verif.PyRt"
+            self.err = "Err"
+            self.note = "design_notes/py2lean.md"
+            self.targets = TARGETS
+        else:
+            self.file = "_filter.py"
+            self.namespace = "Verif.FilterGen"
+            self.imports = ["Verif.FilterRt"]
+            self.opens = "Verif Verif.FilterRt"
+            self.err = "GErr"
+            self.note = "design_notes/py2lean_filter.md"
+            self.targets = FILTER_TARGETS
+        # dataclass name -> constructor of the model's `Verif.Filter` (fields in the same order)
+        self.ctors = {
+            "FilterAnd": "Filter.and", "FilterOr": "Filter.or", "FilterNot": "Filter.not",
+            "FilterEquality": "Filter.eq", "FilterSubstrings": "Filter.substr",
+            "FilterGreaterOrEqual": "Filter.ge", "FilterLessOrEqual": "Filter.le",
+            "FilterPresent": "Filter.present", "FilterApproxMatch": "Filter.approx",
+            "FilterExtensibleMatch": "Filter.ext",
+        } if self.ext else {}
+        self.filter_base = "LDAPFilter" if self.ext else None
+        # functions that are NOT translated but mapped to a named function of the runtime / model:
+        # python name -> (lean name, [(param, type)] with 'str' = dropped, result type)
+        self.externals = {
+            "_unpack_filter_value": ("unpack_filter_value",
+                                     [("filter", "str"), ("value", "bytes"), ("offset", "int"), ("length", "int")],
+                                     "bytes"),
+        } if self.ext else {}
+        # compiled regular expressions whose `.match(x)` is a named model predicate
+        self.patterns = {"_ATTRIBUTE_PATTERN": "validAttr"} if self.ext else {}
+        # exception classes with (offset, length) payload
+        self.syntax_errors = {"FilterSyntaxError": "GErr.syntax"} if self.ext else {}
+
+
 LEAN_KEYWORDS = {
     "end", "at", "from", "fun", "open", "in", "do", "then", "else", "match", "with", "let", "have",
     "show", "by", "if", "instance", "structure", "class", "where", "def", "theorem", "namespace",
@@ -49,7 +107,7 @@ LEAN_KEYWORDS = {
     "Type", "Prop", "Sort", "deriving", "extends", "export", "local", "private", "protected", "partial",
     "unsafe", "macro", "syntax", "notation", "universe", "variable", "abbrev", "axiom", "example",
     "inductive", "mutual", "infix", "prefix", "postfix", "calc", "nomatch", "nofun", "exists", "forall",
-    "fuel", "len", "slice",
+    "fuel", "len", "slice", "attribute", "depth",
 }
 
 # ---------------------------------------------------------------------------------------------
@@ -79,7 +137,15 @@ def lean_type(ty) -> str:
         return "List Nat"
     if ty == "none":
         return "Unit"
+    if ty in ("ustr", "cstr"):       # str as its UTF-8 octets / as its code points
+        return "List Nat"
+    if ty == "char":                 # chr(octet): the code point
+        return "Int"
+    if ty == "filter":
+        return "Filter"
     if isinstance(ty, tuple):
+        if ty[0] == "list":
+            return f"List {lean_type_atom(ty[1])}"
         if ty[0] == "opt":
             return f"Option {lean_type_atom(ty[1])}"
         if ty[0] == "nt":
@@ -101,7 +167,10 @@ def int_lit(v: int) -> str:
 class Module:
     """Module-level facts read from the AST: enum classes, named tuples, functions."""
 
-    def __init__(self, tree: ast.Module):
+    def __init__(self, tree: ast.Module, profile: "Profile | None" = None):
+        self.profile = profile or Profile("asn1")
+        self.dcs: dict[str, list[tuple[str, ast.expr]]] = {}      # dataclass -> init fields (name, annotation)
+        self.exc_params: dict[str, list[str]] = {}                # exception class -> __init__ parameter names
         self.enums: dict[str, list[tuple[str, int]]] = {}
         self.nts: dict[str, list[tuple[str, object]]] = {}
         self.nt_order: list[str] = []
@@ -125,6 +194,21 @@ class Module:
                     pending_nt.append(node)
                 elif any(b in ("Exception",) for b in bases) and node.name == "NotEnougData":
                     self.exceptions[node.name] = "Err.notEnough"
+                elif self.profile.ext and node.name in self.profile.syntax_errors:
+                    for st in node.body:
+                        if isinstance(st, ast.FunctionDef) and st.name == "__init__":
+                            self.exc_params[node.name] = [a.arg for a in st.args.args[1:]]
+                elif self.profile.ext and any("dataclass" in ast.unparse(d) for d in node.decorator_list):
+                    fields = []
+                    for st in node.body:
+                        if isinstance(st, ast.AnnAssign) and isinstance(st.target, ast.Name):
+                            if st.value is not None and "init=False" in ast.unparse(st.value):
+                                continue
+                            fields.append((st.target.id, st.annotation))
+                        elif isinstance(st, ast.FunctionDef):
+                            if any(ast.unparse(d) == "classmethod" for d in st.decorator_list):
+                                self.funcs[f"{node.name}.{st.name}"] = st
+                    self.dcs[node.name] = fields
         for node in pending_nt:
             self.nts[node.name] = []          # so that self references resolve
         for node in pending_nt:
@@ -154,9 +238,13 @@ class Module:
             return "int"
         if s in self.nts:
             return ("nt", s)
+        if self.profile.ext and (s == self.profile.filter_base or s in self.profile.ctors):
+            return "filter"
         if isinstance(a, ast.Subscript):
             head = ast.unparse(a.value)
             args = a.slice.elts if isinstance(a.slice, ast.Tuple) else [a.slice]
+            if self.profile.ext and head in ("t.List", "typing.List", "List", "list"):
+                return ("list", self.ann_type(args[0]))
             if head in ("t.Optional", "typing.Optional", "Optional"):
                 return ("opt", self.ann_type(args[0]))
             if head in ("t.Union", "typing.Union", "Union"):
@@ -220,7 +308,20 @@ def assigned_names(stmts) -> list[str]:
         elif isinstance(t, ast.Subscript) and isinstance(t.value, ast.Name):
             add(t.value.id)
 
+    def pops(st):
+        # `x.pop(0)` anywhere inside a simple statement mutates x
+        for n in ast.walk(st):
+            if isinstance(n, ast.Call) and isinstance(n.func, ast.Attribute) and n.func.attr == "pop" \
+                    and isinstance(n.func.value, ast.Name):
+                add(n.func.value.id)
+
     def visit(st):
+        if isinstance(st, (ast.Assign, ast.AugAssign, ast.AnnAssign, ast.Expr)):
+            pops(st)
+        if isinstance(st, ast.Try):
+            for s in st.body:
+                visit(s)
+            return
         if isinstance(st, ast.Assign):
             for t in st.targets:
                 target(t)
@@ -301,6 +402,14 @@ class FuncTranslator:
         self.uses_fuel = False
         self.mutated = mutated_in_place(node.body)
         self.params: list[tuple[str, object, ast.expr | None]] = []   # (name, type, default)
+        self.prof = mod.profile
+        self.declared: dict[str, object] = {}     # local variables with an annotated declaration
+        self.loop_depth = 0                       # > 0 while the text of a loop function is being produced
+        self.uses_depth = False                   # takes the recursion-depth budget
+        self.scc = gen.scc_of.get(pyname)         # members of the recursive group this function is in
+        self.scc_head = gen.head_of.get(pyname)   # its entry function (the one that consumes depth)
+        self.is_head = self.scc_head == pyname
+        self.ret_annot = None
 
     # ---- utilities
 
@@ -331,7 +440,14 @@ class FuncTranslator:
             if p.annotation is None:
                 raise Unsupported(p, f"parameter {p.arg} has no annotation")
             ty = self.mod.ann_type(p.annotation)
+            if self.prof.ext and ty == "str":
+                ty = self.gen.str_param_kind(self.pyname, p.arg)
             self.params.append((p.arg, ty, d))
+        if self.prof.ext and self.node.returns is not None:
+            try:
+                self.ret_annot = self.mod.ann_type(self.node.returns)
+            except Unsupported:
+                self.ret_annot = None
 
     def kept_params(self):
         return [(n, ty, d) for (n, ty, d) in self.params if ty != "str" and ty != ("opt", "str")]
@@ -345,14 +461,39 @@ class FuncTranslator:
             env[n] = ty               # message-only (str) parameters stay in env so that they type-check, but
             if n in self.mutated:     # nothing is emitted for them
                 raise Unsupported(self.node, f"parameter {n!r} is mutated in place")
+        if self.scc_head:
+            self.uses_fuel = self.gen.scc_uses_fuel(self.scc_head, self.node)
+            self.uses_depth = True
         body = self.block(self.node.body, env, Ctx(), self.fall_off_end)
         if self.ret_type is None:
             self.ret_type = "none"
+        if self.scc_head and self.is_head and self.ret_annot != self.ret_type:
+            raise Unsupported(self.node, f"recursive function returns {self.ret_type}, annotated {self.ret_annot}")
         ps = "".join(f" ({self.var(n)} : {lean_type(ty)})" for n, ty, _ in self.kept_params())
         fuel = " (fuel : Nat)" if self.uses_fuel else ""
-        head = f"def {self.lname}{fuel}{ps} : Except Err {lean_type_atom(self.ret_type)} := do"
-        doc = f"/-- `{self.pyname}` (asn1.py line {self.node.lineno}) -/"
+        err = self.prof.err
+        doc = f"/-- `{self.pyname}` ({self.prof.file} line {self.node.lineno}) -/"
+        if self.scc_head and self.is_head:
+            # the entry of a recursive group: structural recursion on the depth budget
+            kp = self.kept_params()
+            tys = " → ".join(["Nat"] + [lean_type_atom(ty) for _, ty, _ in kp])
+            head = [f"def {self.lname}{fuel} : {tys} → Except {err} {lean_type_atom(self.ret_type)}",
+                    "  | " + ", ".join(["0"] + ["_"] * len(kp)) + " => Except.error recursionError",
+                    "  | " + ", ".join(["depth + 1"] + [self.var(n) for n, _, _ in kp]) + " => do"]
+            return "\n\n".join(self.aux + [doc + "\n" + "\n".join(head) + "\n" + indent(body, 2)])
+        rec = f" ({self.rec_param()} : {self.gen.rec_type(self.scc_head)})" if self.scc_head else ""
+        depth = " (depth : Nat)" if self.uses_depth and not self.scc_head else ""
+        head = f"def {self.lname}{rec}{fuel}{depth}{ps} : Except {err} {lean_type_atom(self.ret_type)} := do"
         return "\n\n".join(self.aux + [doc + "\n" + head + "\n" + indent(body, 1)])
+
+    def rec_param(self) -> str:
+        return "rec_" + lean_name(self.scc_head.replace(".", "_"))
+
+    def rec_term(self) -> str:
+        """the entry function of the recursive group, one level down"""
+        if self.is_head and self.loop_depth == 0:
+            return f"({self.lname}{' fuel' if self.uses_fuel else ''} depth)"
+        return self.rec_param()
 
     def fall_off_end(self, env):
         self.note_return(self.node, "none")
@@ -383,8 +524,11 @@ class FuncTranslator:
                 lines += self.return_stmt(st, env)
                 return lines
             if isinstance(st, ast.Raise):
-                lines += self.raise_stmt(st)
+                lines += self.raise_stmt(st, env)
                 return lines
+            if isinstance(st, ast.Try) and self.prof.ext:
+                lines += self.try_stmt(st, env, ctx)
+                continue
             if isinstance(st, ast.Break):
                 if ctx.brk is None:
                     raise Unsupported(st, "break outside a loop")
@@ -406,7 +550,9 @@ class FuncTranslator:
         return lines
 
     def simple_stmt(self, st, env) -> list[str]:
+        decl_ann = None
         if isinstance(st, ast.AnnAssign) and st.value is not None and isinstance(st.target, ast.Name):
+            decl_ann = st.annotation if self.prof.ext else None
             st = ast.copy_location(ast.Assign(targets=[st.target], value=st.value), st)
         if isinstance(st, ast.Assign):
             if len(st.targets) != 1:
@@ -417,11 +563,19 @@ class FuncTranslator:
                         and env.get(st.value.id) == "bytes":
                     raise Unsupported(st, f"aliasing of a mutated bytearray: {tgt.id} = {st.value.id}")
                 pre, term, ty = self.expr(st.value, env)
+                if decl_ann is not None:
+                    # an annotated declaration fixes the type of the variable for the whole function
+                    self.declared[tgt.id] = self.resolve_str(self.mod.ann_type(decl_ann), ty)
+                if tgt.id in self.declared:
+                    term = self.coerce(st, term, ty, self.declared[tgt.id])
+                    ty = self.declared[tgt.id]
                 if ty in ("str", ("opt", "str")):
                     env[tgt.id] = "str"
                     return []                          # message text: dropped
                 if ty == "structB":
                     raise Unsupported(st, "struct.unpack result used other than under [0]")
+                if self.prof.ext and ty in ("none", "emptylist"):
+                    raise Unsupported(st, f"cannot type the variable {tgt.id!r} from {ast.unparse(st.value)}")
                 env[tgt.id] = ty
                 r = rebind(pre, term, self.var(tgt.id))
                 if r is not None:
@@ -431,8 +585,24 @@ class FuncTranslator:
                 pre, term, ty = self.expr(st.value, env)
                 names = [e.id for e in tgt.elts]
                 if isinstance(ty, tuple) and ty[0] == "tuple" and len(ty[1]) == len(names):
+                    post = []
+                    pnames = []
                     for n, t_ in zip(names, ty[1]):
-                        env[n] = t_
+                        if n in self.declared and self.declared[n] != t_:
+                            tmp = self.fresh()
+                            post.append(f"let {self.var(n)} : {lean_type(self.declared[n])} := "
+                                        f"{self.coerce(st, tmp, t_, self.declared[n])}")
+                            env[n] = self.declared[n]
+                            pnames.append(tmp)
+                        else:
+                            env[n] = t_
+                            pnames.append(self.var(n))
+                    if post:
+                        pat = ", ".join(pnames)
+                        r = rebind(pre, term, f"({pat})")
+                        if r is not None:
+                            return r + post
+                        return pre + [f"let ({pat}) : {lean_type(ty)} := {term}"] + post
                     pat = ", ".join(self.var(n) for n in names)
                     r = rebind(pre, term, f"({pat})")
                     if r is not None:
@@ -465,9 +635,18 @@ class FuncTranslator:
             raise Unsupported(st, "augmented assignment target outside the subset")
         if isinstance(st, ast.Expr) and isinstance(st.value, ast.Call):
             f = st.value.func
+            if self.prof.ext and isinstance(f, ast.Attribute) and f.attr == "pop":
+                pre, _, _ = self.expr(st.value, env)      # the value popped is discarded
+                return pre
             if isinstance(f, ast.Attribute) and isinstance(f.value, ast.Name) and f.attr in ("append", "extend", "reverse"):
                 name = f.value.id
-                if self.lookup(st, env, name) != "bytes":
+                lty = self.lookup(st, env, name)
+                if self.prof.ext and isinstance(lty, tuple) and lty[0] == "list" and f.attr == "append" \
+                        and len(st.value.args) == 1:
+                    pre, term, ty = self.expr(st.value.args[0], env)
+                    term = self.coerce(st, term, ty, lty[1])
+                    return pre + [f"let {self.var(name)} : {lean_type(lty)} := {self.var(name)} ++ [{term}]"]
+                if lty != "bytes":
                     raise Unsupported(st, f".{f.attr} on a non-bytearray")
                 v = self.var(name)
                 args = st.value.args
@@ -524,13 +703,67 @@ class FuncTranslator:
             return pre[:-1] + [pre[-1][len(f"let {term} ← "):]]          # tail call
         return pre + [f"Except.ok {atom(term)}"]
 
-    def raise_stmt(self, st):
+    def raise_stmt(self, st, env=None):
         if st.exc is None:
             raise Unsupported(st, "bare raise")
         exc = st.exc.func if isinstance(st.exc, ast.Call) else st.exc
-        if isinstance(exc, ast.Name) and exc.id in self.mod.exceptions:
+        if isinstance(exc, ast.Name) and exc.id in self.prof.syntax_errors and isinstance(st.exc, ast.Call) \
+                and exc.id in self.mod.exc_params:
+            # FilterSyntaxError(msg, filter=…, offset=…, length=…): message and filter dropped, offset and length kept
+            names = self.mod.exc_params[exc.id]
+            given = dict(zip(names, st.exc.args))
+            for kw in st.exc.keywords:
+                if kw.arg is None or kw.arg in given or kw.arg not in names:
+                    raise Unsupported(st, f"bad argument {kw.arg} of {exc.id}")
+                given[kw.arg] = kw.value
+            if "offset" not in given or "length" not in given:
+                raise Unsupported(st, f"{exc.id} without offset/length")
+            pre = []
+            vals = []
+            order = [n for n in names if n in given and n in ("offset", "length")]
+            order.sort(key=lambda n: (given[n].lineno, given[n].col_offset))    # evaluation order as written
+            terms = {}
+            for n in order:
+                p, t_, ty = self.expr(given[n], env)
+                self.want(st, ty, "int")
+                pre += p
+                terms[n] = t_
+            return pre + [f"Except.error ({self.prof.syntax_errors[exc.id]} {atom(terms['offset'])} {atom(terms['length'])})"]
+        if isinstance(exc, ast.Name) and exc.id in self.mod.exceptions and not self.prof.ext:
             return [f"Except.error {self.mod.exceptions[exc.id]}"]      # message arguments are dropped
         raise Unsupported(st, f"raise of {ast.unparse(exc)}")
+
+    def try_stmt(self, st, env, ctx):
+        """try: <assignments/calls>  except RecursionError: raise …   (env is updated in place)"""
+        if st.orelse or st.finalbody or len(st.handlers) != 1:
+            raise Unsupported(st, "try with else/finally/several handlers")
+        h = st.handlers[0]
+        if not (isinstance(h.type, ast.Name) and h.type.id == "RecursionError" and h.name is None):
+            raise Unsupported(st, "except clause other than `except RecursionError:`")
+        if not (len(h.body) == 1 and isinstance(h.body[0], ast.Raise)):
+            raise Unsupported(st, "RecursionError handler other than a single raise")
+        if has_jump(st.body) or has_return(st.body):
+            raise Unsupported(st, "jump inside try")
+        names = [n for n in assigned_names(st.body)]
+        box = {}
+
+        def capture(env2):
+            box["env"] = env2
+            live = [n for n in names if env2.get(n) not in (None, "str")]
+            box["names"] = live
+            return [f"Except.ok {self.tuple_of(live)}"]
+
+        body = self.block(st.body, env, ctx, capture)
+        handler = self.raise_stmt(h.body[0], env)
+        live = box["names"]
+        for n in live:
+            env[n] = box["env"][n]
+        out = [f"let {self.tuple_of(live) if live else '_'} ← tryRecursion"]
+        out += indent_lines(["(" + do_block(body)[0]] + do_block(body)[1:-1] + [do_block(body)[-1] + ")"]
+                            if len(do_block(body)) > 1 else ["(" + do_block(body)[0] + ")"], 2)
+        hb = do_block(handler)
+        out += indent_lines(["(" + hb[0]] + hb[1:-1] + [hb[-1] + ")"] if len(hb) > 1 else ["(" + hb[0] + ")"], 2)
+        return out
 
     # ---- if
 
@@ -540,6 +773,14 @@ class FuncTranslator:
         while isinstance(test, ast.UnaryOp) and isinstance(test.op, ast.Not):
             neg = not neg
             test = test.operand
+        if self.prof.ext and isinstance(test, ast.Compare) and len(test.ops) == 1 \
+                and isinstance(test.ops[0], (ast.Is, ast.IsNot)) and isinstance(test.left, ast.Name) \
+                and isinstance(test.comparators[0], ast.Constant) and test.comparators[0].value is None:
+            ty = env.get(test.left.id)
+            if isinstance(ty, tuple) and ty[0] == "opt":
+                is_none = isinstance(test.ops[0], ast.Is)
+                return test.left.id, (is_none == neg)
+            return None
         if isinstance(test, ast.Name):
             ty = env.get(test.id)
             if isinstance(ty, tuple) and ty[0] == "opt":
@@ -688,7 +929,19 @@ class FuncTranslator:
     def check_stable(self, st, carried, env, env2):
         for n in carried:
             if env2.get(n) != env[n]:
+                if self.prof.ext and env[n] == ("opt", env2.get(n)):
+                    continue                # narrowed inside the body: re-wrapped by carried_args
                 raise Unsupported(st, f"loop-carried variable {n!r} changes type ({env[n]} → {env2.get(n)})")
+
+    def carried_terms(self, carried, env, env2):
+        """the carried variables as terms of their loop types (a variable narrowed to T is `some v` again)"""
+        return [self.var(n) if env2.get(n) == env[n] else f"(some {self.var(n)})" for n in carried]
+
+    def carried_result(self, carried, env, env2):
+        ts = self.carried_terms(carried, env, env2)
+        if not ts:
+            return "()"
+        return "(" + ", ".join(ts) + ")" if len(ts) > 1 else ts[0]
 
     def while_stmt(self, st, env):
         if st.orelse:
@@ -703,15 +956,20 @@ class FuncTranslator:
         res_ty = self.tuple_type(carried, env)
         fixed_args = "".join(f" {self.var(n)}" for n in fixed)
 
+        rec_outer = f" {self.rec_term()}" if self.scc_head else ""
+        rec_inner = f" {self.rec_param()}" if self.scc_head else ""
+        rec_sig = f" ({self.rec_param()} : {self.gen.rec_type(self.scc_head)})" if self.scc_head else ""
+
         def again(env2):
             self.check_stable(st, carried, env, env2)
-            return [f"{fname}{fixed_args} fuel" + "".join(f" {self.var(n)}" for n in carried)]
+            return [f"{fname}{rec_inner}{fixed_args} fuel" + "".join(f" {t_}" for t_ in self.carried_terms(carried, env, env2))]
 
         def done(env2):
             self.check_stable(st, carried, env, env2)
-            return [f"Except.ok {res}"]
+            return [f"Except.ok {self.carried_result(carried, env, env2)}"]
 
         ctx = Ctx(brk=done, cont=again, in_loop=True)
+        self.loop_depth += 1
         body = self.block(st.body, env, ctx, again)
         always = isinstance(st.test, ast.Constant) and st.test.value is True
         if always:
@@ -719,16 +977,17 @@ class FuncTranslator:
         else:
             pre, c = self.cond(st.test, env)
             lines = pre + [f"if {c} then"] + indent_lines(do_block(body), 1) + ["else"] + indent_lines(done(env), 1)
-        sig = "".join(f" ({self.var(n)} : {lean_type(env[n])})" for n in fixed)
+        self.loop_depth -= 1
+        sig = rec_sig + "".join(f" ({self.var(n)} : {lean_type(env[n])})" for n in fixed)
         tys = " → ".join(["Nat"] + [lean_type_atom(env[n]) for n in carried])
         wild = ", ".join(["0"] + ["_"] * len(carried))
         pat = ", ".join(["fuel + 1"] + [self.var(n) for n in carried])
-        text = [f"/-- the `while` loop at asn1.py line {st.lineno} of `{self.pyname}`; carried: {', '.join(carried) or '-'} -/",
-                f"def {fname}{sig} : {tys} → Except Err {paren(res_ty) if carried else 'Unit'}",
+        text = [f"/-- the `while` loop at {self.prof.file} line {st.lineno} of `{self.pyname}`; carried: {', '.join(carried) or '-'} -/",
+                f"def {fname}{sig} : {tys} → Except {self.prof.err} {paren(res_ty) if carried else 'Unit'}",
                 f"  | {wild} => Except.error fuelError",
                 f"  | {pat} => do"] + indent_lines(lines, 2)
         self.aux.append("\n".join(text))
-        call = f"{fname}{fixed_args} fuel" + "".join(f" {self.var(n)}" for n in carried)
+        call = f"{fname}{rec_outer}{fixed_args} fuel" + "".join(f" {self.var(n)}" for n in carried)
         return [f"let {res if carried else '_'} ← {call}"]
 
     def for_stmt(self, st, env):
@@ -794,7 +1053,11 @@ class FuncTranslator:
             elif len(targets) != 1:
                 raise Unsupported(st, "tuple target over a byte sequence")
             p, src_t, sty = self.expr(src, env)
-            self.want(st, sty, "bytes")
+            elem_ty = "int"
+            if self.prof.ext and isinstance(sty, tuple) and sty[0] == "list":
+                elem_ty = sty[1]
+            else:
+                self.want(st, sty, "bytes")
             pre += p
             muts = set()
             if isinstance(src, ast.Name):
@@ -804,6 +1067,8 @@ class FuncTranslator:
             if muts - {"store"}:
                 raise Unsupported(st, f"the sequence iterated is resized/reordered in the loop body ({sorted(muts)})")
             kind = "live" if muts else "list"
+            if kind == "live" and elem_ty != "int":
+                raise Unsupported(st, "the list iterated is stored into by the loop body")
             val_name = targets[-1]
             idx_name = targets[0] if enum else None
 
@@ -811,7 +1076,7 @@ class FuncTranslator:
         if kind == "range":
             env_body[idx_name] = "int"
         else:
-            env_body[val_name] = "int"
+            env_body[val_name] = elem_ty
             if idx_name:
                 env_body[idx_name] = "int"
         carried, fixed = self.loop_vars(st, env, [])
@@ -820,16 +1085,20 @@ class FuncTranslator:
         res_ty = self.tuple_type(carried, env)
         uses_fuel_before = self.uses_fuel
         self.uses_fuel = False
+        rec_outer = f" {self.rec_term()}" if self.scc_head else ""
+        rec_inner = f" {self.rec_param()}" if self.scc_head else ""
+        rec_sig = f" ({self.rec_param()} : {self.gen.rec_type(self.scc_head)})" if self.scc_head else ""
+        self.loop_depth += 1
         # body first, to learn whether it needs fuel
         pos = "pos_" if kind == "live" else None
 
         def again_args(env2):
             self.check_stable(st, carried, env, env2)
-            return "".join(f" {self.var(n)}" for n in carried)
+            return "".join(f" {t_}" for t_ in self.carried_terms(carried, env, env2))
 
         def again(env2):
             a = again_args(env2)
-            fx = "".join(f" {self.var(n)}" for n in fixed)
+            fx = rec_inner + "".join(f" {self.var(n)}" for n in fixed)
             fl = " fuel" if self.uses_fuel else ""
             if kind == "range":
                 nxt = f"({self.var(idx_name)} {'+' if step == 1 else '-'} 1)"
@@ -841,7 +1110,7 @@ class FuncTranslator:
 
         def done(env2):
             self.check_stable(st, carried, env, env2)
-            return [f"Except.ok {res}"]
+            return [f"Except.ok {self.carried_result(carried, env, env2)}"]
 
         ctx = Ctx(brk=done, cont=again, in_loop=True)
         snap = self.snapshot()
@@ -850,30 +1119,34 @@ class FuncTranslator:
             # the recursive calls were rendered before we knew: re-render
             self.restore(snap)
             body = self.block(st.body, env_body, ctx, again)
+        self.loop_depth -= 1
         body_fuel = self.uses_fuel
         self.uses_fuel = uses_fuel_before or body_fuel
         fl_sig = " (fuel : Nat)" if body_fuel else ""
         fl_arg = " fuel" if body_fuel else ""
-        sig = fl_sig + "".join(f" ({self.var(n)} : {lean_type(env[n])})" for n in fixed)
+        sig = rec_sig + fl_sig + "".join(f" ({self.var(n)} : {lean_type(env[n])})" for n in fixed)
         fixed_args = "".join(f" {self.var(n)}" for n in fixed)
         ctys = [lean_type_atom(env[n]) for n in carried]
         cpat = [self.var(n) for n in carried]
-        ret = f"Except Err {paren(res_ty) if carried else 'Unit'}"
-        doc = f"/-- the `for` loop at asn1.py line {st.lineno} of `{self.pyname}`; carried: {', '.join(carried) or '-'} -/"
+        ret = f"Except {self.prof.err} {paren(res_ty) if carried else 'Unit'}"
+        doc = f"/-- the `for` loop at {self.prof.file} line {st.lineno} of `{self.pyname}`; carried: {', '.join(carried) or '-'} -/"
         if kind == "range":
             tys = " → ".join(["Nat", "Int"] + ctys)
             text = [doc, f"def {fname}{sig} : {tys} → {ret}",
                     "  | " + ", ".join(["0", "_"] + cpat) + f" => Except.ok {res}",
                     "  | " + ", ".join(["n_ + 1", self.var(idx_name)] + cpat) + " => do"] + indent_lines(body, 2)
-            call = f"{fname}{fl_arg}{fixed_args} {count} {atom(start_t)}" + "".join(f" {c}" for c in cpat)
+            call = f"{fname}{rec_outer}{fl_arg}{fixed_args} {count} {atom(start_t)}" + "".join(f" {c}" for c in cpat)
         elif kind == "list":
-            tys = " → ".join(["List Nat"] + (["Int"] if idx_name else []) + ctys)
+            tys = " → ".join([("List Nat" if elem_ty == "int" else f"List {lean_type_atom(elem_ty)}")]
+                             + (["Int"] if idx_name else []) + ctys)
+            bind = (f"    let {self.var(val_name)} : Int := (b_ : Int)" if elem_ty == "int"
+                    else f"    let {self.var(val_name)} : {lean_type(elem_ty)} := b_")
             ip = [self.var(idx_name)] if idx_name else []
             text = [doc, f"def {fname}{sig} : {tys} → {ret}",
                     "  | " + ", ".join(["[]"] + (["_"] if idx_name else []) + cpat) + f" => Except.ok {res}",
                     "  | " + ", ".join(["b_ :: rest_"] + ip + cpat) + " => do",
-                    f"    let {self.var(val_name)} : Int := (b_ : Int)"] + indent_lines(body, 2)
-            call = f"{fname}{fl_arg}{fixed_args} {atom(src_t)}" + (" 0" if idx_name else "") + "".join(f" {c}" for c in cpat)
+                    bind] + indent_lines(body, 2)
+            call = f"{fname}{rec_outer}{fl_arg}{fixed_args} {atom(src_t)}" + (" 0" if idx_name else "") + "".join(f" {c}" for c in cpat)
         else:
             tys = " → ".join(["Nat", "Int"] + ctys)
             lines = [f"let {self.var(val_name)} ← getItem {atom(src_t)} pos_"]
@@ -884,7 +1157,7 @@ class FuncTranslator:
                     f"def {fname}{sig} : {tys} → {ret}",
                     "  | " + ", ".join(["0", "_"] + cpat) + f" => Except.ok {res}",
                     "  | " + ", ".join(["n_ + 1", "pos_"] + cpat) + " => do"] + indent_lines(lines + body, 2)
-            call = f"{fname}{fl_arg}{fixed_args} {atom(src_t)}.length 0" + "".join(f" {c}" for c in cpat)
+            call = f"{fname}{rec_outer}{fl_arg}{fixed_args} {atom(src_t)}.length 0" + "".join(f" {c}" for c in cpat)
         self.aux.append("\n".join(text))
         return pre + [f"let {res if carried else '_'} ← {call}"]
 
@@ -914,6 +1187,18 @@ class FuncTranslator:
                 else:
                     acc = f"{atom(acc)} {'∧' if is_and else '∨'} {atom(c2)}"
             return pre, acc
+        if isinstance(node, ast.Compare) and self.prof.ext and len(node.ops) == 1:
+            r = self.cond_ext(node, env)
+            if r is not None:
+                return r
+        if isinstance(node, ast.Call) and self.prof.ext and isinstance(node.func, ast.Attribute) \
+                and node.func.attr == "match" and isinstance(node.func.value, ast.Name) \
+                and node.func.value.id in self.prof.patterns and node.func.value.id not in env \
+                and len(node.args) == 1 and not node.keywords:
+            # truth value of `PATTERN.match(x)`: the named model predicate
+            pre, a, ty = self.expr(node.args[0], env)
+            self.want(node, ty, "ustr")
+            return pre, f"{self.prof.patterns[node.func.value.id]} {atom(a)} = true"
         if isinstance(node, ast.Compare):
             if len(node.ops) != 1:
                 raise Unsupported(node, "chained comparison")
@@ -943,12 +1228,68 @@ class FuncTranslator:
             return pre, f"{term} = true"
         if ty == "bytes":
             return pre, f"{term} ≠ []"
+        if ty in ("ustr", "cstr"):
+            return pre, f"{term} ≠ []"
+        if isinstance(ty, tuple) and ty[0] == "list":
+            return pre, f"{atom(term)}.isEmpty = false"
+        if ty == "char":
+            return pre, "True"                      # a one-character string
+        if ty == ("opt", "char"):
+            return pre, f"{atom(term)}.isSome = true"
         if isinstance(ty, tuple) and ty[0] == "nt" and self.mod.nts[ty[1]]:
             return pre, "True"
         if isinstance(ty, tuple) and ty[0] == "opt" and isinstance(ty[1], tuple) and ty[1][0] == "nt" \
                 and self.mod.nts[ty[1][1]]:
             return pre, f"{atom(term)}.isSome = true"
         raise Unsupported(node, f"truth value of a {ty}")
+
+    def str_literal(self, node, value: str, ty):
+        """the Lean term for a str literal compared with a value of type `ty`"""
+        if ty in ("char", ("opt", "char")):
+            if len(value) != 1:
+                raise Unsupported(node, f"one-character string compared with {value!r}")
+            t_ = str(ord(value))
+            return t_ if ty == "char" else f"some {t_}"
+        if ty == "ustr":
+            return "[" + ", ".join(str(x) for x in value.encode("utf-8", errors="surrogateescape")) + "]"
+        if ty == "cstr":
+            return "[" + ", ".join(str(ord(c)) for c in value) + "]"
+        raise Unsupported(node, f"string literal compared with a {ty}")
+
+    def cond_ext(self, node, env):
+        """comparisons of the extended subset; None when the comparison is not one of them"""
+        op = node.ops[0]
+        left, right = node.left, node.comparators[0]
+
+        def is_strc(n):
+            return isinstance(n, ast.Constant) and isinstance(n.value, str)
+
+        if isinstance(op, (ast.Is, ast.IsNot)) and isinstance(right, ast.Constant) and right.value is None:
+            pre, a, ty = self.expr(left, env)
+            if not (isinstance(ty, tuple) and ty[0] == "opt"):
+                raise Unsupported(node, f"`is None` on a {ty}")
+            return pre, f"{atom(a)}.isSome = {'false' if isinstance(op, ast.Is) else 'true'}"
+        if isinstance(op, (ast.In, ast.NotIn)):
+            neg = isinstance(op, ast.NotIn)
+            if isinstance(right, (ast.List, ast.Tuple)) and right.elts and all(is_strc(e) for e in right.elts):
+                pre, a, ty = self.expr(left, env)
+                alts = [f"{atom(a)} = {self.str_literal(node, e.value, ty)}" for e in right.elts]
+                c = "(" + " ∨ ".join(alts) + ")"
+                return pre, (f"¬ {c}" if neg else c)
+            if isinstance(left, ast.Constant) and isinstance(left.value, bytes) and len(left.value) == 1:
+                pre, a, ty = self.expr(right, env)
+                self.want(node, ty, "bytes")
+                c = f"{left.value[0]} ∈ {atom(a)}"
+                return pre, (f"¬ ({c})" if neg else c)
+            raise Unsupported(node, "`in` other than `x in [\"c\", …]` / `b\"c\" in bytes`")
+        if isinstance(op, (ast.Eq, ast.NotEq)) and (is_strc(left) or is_strc(right)):
+            lit, other = (left, right) if is_strc(left) else (right, left)
+            if is_strc(other):
+                raise Unsupported(node, "comparison of two string literals")
+            pre, a, ty = self.expr(other, env)
+            sym = "=" if isinstance(op, ast.Eq) else "≠"
+            return pre, f"{a} {sym} {self.str_literal(node, lit.value, ty)}"
+        return None
 
     # ---- expressions
 
@@ -1011,6 +1352,16 @@ class FuncTranslator:
             if ta == "int" and tb == "int":
                 return pre, self.int_binop(node, node.op, a, b, pre), "int"
             raise Unsupported(node, f"operator {type(node.op).__name__} on {ta} and {tb}")
+        if self.prof.ext and isinstance(node, ast.List) and not node.elts:
+            return [], "[]", "emptylist"
+        if self.prof.ext and isinstance(node, ast.BoolOp) and isinstance(node.op, ast.Or) and len(node.values) == 2:
+            # `a or b` as a value, both ints
+            snap = self.snapshot()
+            p1, a, ta = self.expr(node.values[0], env)
+            p2, b, tb = self.expr(node.values[1], env)
+            if ta == "int" and tb == "int" and not p2:
+                return p1, f"(if {a} ≠ 0 then {a} else {b} : Int)", "int"
+            self.restore(snap)
         if isinstance(node, (ast.Compare, ast.BoolOp)):
             pre, c = self.cond(node, env)
             return pre, f"decide ({c})", "bool"
@@ -1043,6 +1394,11 @@ class FuncTranslator:
                     t = self.fresh()
                     return pre + [f"let {t} ← unpackB {atom(a)}"], t, "int"
                 raise Unsupported(node, "struct.unpack(\"B\", …) result used other than under [0]")
+            if self.prof.ext and isinstance(ty, tuple) and ty[0] == "list" and not isinstance(node.slice, ast.Slice):
+                p, i, ti = self.expr(node.slice, env)
+                self.want(node, ti, "int")
+                t = self.fresh()
+                return pre + p + [f"let {t} ← getItemL {atom(a)} {atom(i)}"], t, ty[1]
             if ty != "bytes":
                 raise Unsupported(node, f"subscript on a {ty}")
             sl = node.slice
@@ -1130,8 +1486,25 @@ class FuncTranslator:
         if isinstance(f, ast.Name) and f.id not in env:
             if f.id == "len" and len(node.args) == 1 and not node.keywords:
                 pre, a, ty = self.expr(node.args[0], env)
-                self.want(node, ty, "bytes")
+                if not (self.prof.ext and (ty in ("ustr",) or (isinstance(ty, tuple) and ty[0] == "list"))):
+                    self.want(node, ty, "bytes")
                 return pre, f"len {atom(a)}", "int"
+            if self.prof.ext and f.id == "chr" and len(node.args) == 1 and not node.keywords:
+                arg = node.args[0]
+                pre, a, ty = self.expr(arg, env)
+                # only on an element of a bytes-like value (0..255): chr cannot raise there
+                if not (ty == "int" and isinstance(arg, ast.Subscript) and not isinstance(arg.slice, ast.Slice)):
+                    raise Unsupported(node, "chr() of anything but an element of a bytes-like value")
+                return pre, a, "char"
+            if self.prof.ext and f.id == "list" and len(node.args) == 1 and not node.keywords:
+                pre, a, ty = self.expr(node.args[0], env)
+                if not (isinstance(ty, tuple) and ty[0] == "list"):
+                    raise Unsupported(node, f"list() of a {ty}")
+                return pre, a, ty                  # a fresh list: a copy
+            if f.id in self.prof.externals:
+                return self.external_call(node, f.id, env)
+            if f.id in self.prof.ctors and f.id in self.mod.dcs:
+                return self.dc_construct(node, f.id, env)
             if f.id == "bool" and len(node.args) == 1 and not node.keywords:
                 pre, c = self.cond(node.args[0], env)
                 return pre, f"decide ({c})", "bool"
@@ -1172,7 +1545,87 @@ class FuncTranslator:
                 pre, a, ty = self.expr(f.value, env)
                 self.want(node, ty, "bytes")
                 return pre, a, "bytes"
+            if self.prof.ext:
+                r = self.method_call(node, env)
+                if r is not None:
+                    return r
         raise Unsupported(node, f"call outside the subset: {ast.unparse(f)}")
+
+    def is_codec_args(self, node) -> bool:
+        """("utf-8", errors="surrogateescape")"""
+        return (len(node.args) == 1 and isinstance(node.args[0], ast.Constant) and node.args[0].value == "utf-8"
+                and len(node.keywords) == 1 and node.keywords[0].arg == "errors"
+                and isinstance(node.keywords[0].value, ast.Constant)
+                and node.keywords[0].value.value == "surrogateescape")
+
+    def method_call(self, node, env):
+        f = node.func
+        if f.attr == "pop":
+            if not (isinstance(f.value, ast.Name) and len(node.args) == 1 and isinstance(node.args[0], ast.Constant)
+                    and node.args[0].value == 0 and not node.keywords):
+                raise Unsupported(node, "pop other than `name.pop(0)`")
+            ty = self.lookup(node, env, f.value.id)
+            if not (isinstance(ty, tuple) and ty[0] == "list"):
+                raise Unsupported(node, f".pop on a {ty}")
+            t = self.fresh()
+            v = self.var(f.value.id)
+            return [f"let ({t}, {v}) ← popFront {v}"], t, ty[1]
+        pre, a, ty = self.expr(f.value, env)
+        if f.attr == "decode" and ty == "bytes" and self.is_codec_args(node):
+            return pre, a, "ustr"                  # the string IS its octets (see the note)
+        if f.attr == "encode" and ty in ("ustr", "cstr") and self.is_codec_args(node):
+            return pre, (a if ty == "ustr" else f"utf8Encode {atom(a)}"), "bytes"
+        if f.attr == "strip" and ty == "cstr" and not node.args and not node.keywords:
+            return pre, f"pyStrip {atom(a)}", "cstr"
+        if f.attr == "lower" and ty == "ustr" and not node.args and not node.keywords:
+            return pre, f"strLower {atom(a)}", "ustr"
+        if f.attr == "split" and len(node.args) == 1 and not node.keywords and isinstance(node.args[0], ast.Constant):
+            sep = node.args[0].value
+            if ty == "bytes" and isinstance(sep, bytes) and len(sep) == 1:
+                return pre, f"pySplit {sep[0]} {atom(a)}", ("list", "bytes")
+            if ty == "ustr" and isinstance(sep, str) and len(sep) == 1 and ord(sep) < 128:
+                return pre, f"pySplit {ord(sep)} {atom(a)}", ("list", "ustr")
+        return None
+
+    def bind_args(self, node, names, what):
+        """[(parameter, argument expr)] in evaluation order (positional, then keywords as written)"""
+        if len(node.args) > len(names):
+            raise Unsupported(node, f"too many arguments for {what}")
+        pairs = list(zip(names, node.args))
+        seen = {n for n, _ in pairs}
+        for kw in node.keywords:
+            if kw.arg is None or kw.arg in seen or kw.arg not in names:
+                raise Unsupported(node, f"bad keyword argument {kw.arg} for {what}")
+            seen.add(kw.arg)
+            pairs.append((kw.arg, kw.value))
+        if seen != set(names):
+            raise Unsupported(node, f"missing argument for {what}")
+        return pairs
+
+    def external_call(self, node, pyname, env):
+        lname, params, rty = self.prof.externals[pyname]
+        kinds = dict(params)
+        pre, vals = [], {}
+        for n, e in self.bind_args(node, [n for n, _ in params], pyname):
+            if kinds[n] == "str":
+                continue
+            p, t_, ty = self.expr(e, env)
+            pre += p
+            vals[n] = self.coerce(node, t_, ty, kinds[n])
+        t = self.fresh()
+        args = "".join(f" {atom(vals[n])}" for n, k in params if k != "str")
+        return pre + [f"let {t} ← {lname}{args}"], t, rty
+
+    def dc_construct(self, node, cname, env):
+        """one of the filter dataclasses: the constructor of the model's `Filter` with the same fields"""
+        fields = self.mod.dcs[cname]
+        pre, vals = [], {}
+        for n, e in self.bind_args(node, [n for n, _ in fields], cname):
+            want = self.resolve_str(self.mod.ann_type(dict(fields)[n]), None)
+            p, t_, ty = self.expr(e, env)
+            pre += p
+            vals[n] = self.coerce(node, t_, ty, want)
+        return pre, self.prof.ctors[cname] + "".join(f" {atom(vals[n])}" for n, _ in fields), "filter"
 
     def nt_construct(self, node, cname, env):
         fields = self.mod.nts[cname]
@@ -1202,9 +1655,29 @@ class FuncTranslator:
             parts.append(f"{n} := {vals[n]}")
         return pre, "({ " + ", ".join(parts) + " } : " + cname + ")", ("nt", cname)
 
+    def resolve_str(self, ann, vty):
+        """an annotation that mentions `str`, for a variable whose first value has type `vty`"""
+        kind = "ustr"
+        if vty in ("char", ("opt", "char")):
+            kind = "char"
+        elif vty in ("cstr", ("opt", "cstr")):
+            kind = "cstr"
+
+        def go(t_):
+            if t_ == "str":
+                return kind
+            if isinstance(t_, tuple) and t_[0] in ("opt", "list"):
+                return (t_[0], go(t_[1]))
+            if isinstance(t_, tuple) and t_[0] == "tuple":
+                return ("tuple", tuple(go(x) for x in t_[1]))
+            return t_
+        return go(ann)
+
     def coerce(self, node, term, ty, want):
         if ty == want:
             return term
+        if ty == "emptylist" and isinstance(want, tuple) and want[0] == "list":
+            return "[]"
         if isinstance(want, tuple) and want[0] == "opt":
             if ty == "none":
                 return "none"
@@ -1249,12 +1722,26 @@ class FuncTranslator:
                 args.append(atom(self.coerce(node, t_, ty, want)))
             else:
                 raise Unsupported(node, f"missing argument {n}")
-        if callee.uses_fuel:
-            self.uses_fuel = True
-            args = ["fuel"] + args
-        t = self.fresh()
+        fname = callee.lname
         rt = callee.ret_type
-        return pre + [f"let {t} ← {callee.lname}" + "".join(f" {a}" for a in args)], t, rt
+        if self.scc_head is not None and pyname == self.scc_head:
+            # a recursive call of the entry of the group: one level down (the depth and the fuel are inside the term)
+            fname = self.rec_term()
+            rt = callee.ret_annot
+        elif self.scc_head is not None and pyname in self.scc:
+            # another member of the group: it takes the entry one level down as its first argument
+            fname = f"{callee.lname} {self.rec_term()}"
+            if callee.uses_fuel:
+                args = ["fuel"] + args
+        else:
+            if callee.uses_depth:
+                self.uses_depth = True
+                args = ["depth"] + args
+            if callee.uses_fuel:
+                self.uses_fuel = True
+                args = ["fuel"] + args
+        t = self.fresh()
+        return pre + [f"let {t} ← {fname}" + "".join(f" {a}" for a in args)], t, rt
 
 
 # ---------------------------------------------------------------------------------------------
@@ -1331,6 +1818,23 @@ def lines_pure(lines) -> bool:
 # ---------------------------------------------------------------------------------------------
 
 
+def callees_of(mod: Module, node: ast.FunctionDef) -> list[str]:
+    """module functions (and classmethods `Class.m`) called in the body, in source order"""
+    out = []
+    for n in ast.walk(node):
+        if isinstance(n, ast.Call):
+            q = None
+            if isinstance(n.func, ast.Name) and n.func.id in mod.funcs:
+                q = n.func.id
+            elif isinstance(n.func, ast.Attribute) and isinstance(n.func.value, ast.Name):
+                q2 = f"{n.func.value.id}.{n.func.attr}"
+                if q2 in mod.funcs:
+                    q = q2
+            if q is not None and q not in out:
+                out.append(q)
+    return out
+
+
 class Generator:
     def __init__(self, mod: Module):
         self.mod = mod
@@ -1338,6 +1842,149 @@ class Generator:
         self.failed: dict[str, str] = {}
         self.order: list[str] = []
         self.stack: list[str] = []
+        self.inprogress: dict[str, FuncTranslator] = {}
+        self.scc_of: dict[str, frozenset] = {}      # function -> its recursive group (absent: not recursive)
+        self.head_of: dict[str, str] = {}           # function -> entry function of its recursive group
+        self.scc_problem: dict[str, str] = {}
+        if mod.profile.ext:
+            self.find_recursive_groups()
+
+    # ---- recursion: strongly connected components of the call graph
+
+    def find_recursive_groups(self):
+        graph = {f: callees_of(self.mod, node) for f, node in self.mod.funcs.items()}
+        index, low, onstack, stack, comps = {}, {}, set(), [], []
+        counter = [0]
+
+        def strong(v):
+            index[v] = low[v] = counter[0]
+            counter[0] += 1
+            stack.append(v)
+            onstack.add(v)
+            for w in graph[v]:
+                if w not in index:
+                    strong(w)
+                    low[v] = min(low[v], low[w])
+                elif w in onstack:
+                    low[v] = min(low[v], index[w])
+            if low[v] == index[v]:
+                comp = []
+                while True:
+                    w = stack.pop()
+                    onstack.discard(w)
+                    comp.append(w)
+                    if w == v:
+                        break
+                comps.append(comp)
+
+        for v in graph:
+            if v not in index:
+                strong(v)
+        for comp in comps:
+            if len(comp) == 1 and comp[0] not in graph[comp[0]]:
+                continue
+            members = frozenset(comp)
+            # the entry: the member that is called from outside the group
+            entries = [m for m in sorted(members)
+                       if any(m in graph[f] for f in graph if f not in members)]
+            for m in members:
+                self.scc_of[m] = members
+            if len(entries) != 1:
+                for m in members:
+                    self.scc_problem[m] = f"recursive group {sorted(members)} has {len(entries)} entry functions"
+                continue
+            head = entries[0]
+            # without the entry the group must be acyclic
+            sub = {m: [w for w in graph[m] if w in members and w != head] for m in members if m != head}
+            state = {}
+
+            def cyclic(v):
+                state[v] = 1
+                for w in sub[v]:
+                    if state.get(w) == 1 or (w not in state and cyclic(w)):
+                        return True
+                state[v] = 2
+                return False
+
+            if any(cyclic(m) for m in sub if m not in state):
+                for m in members:
+                    self.scc_problem[m] = f"recursive group {sorted(members)} has a cycle that avoids {head}"
+                continue
+            for m in members:
+                self.head_of[m] = head
+
+    def scc_uses_fuel(self, head: str, at) -> bool:
+        """does any member of the group contain a `while`, or call a function outside that takes fuel?"""
+        members = self.scc_of[head]
+        for m in sorted(members):
+            node = self.mod.funcs[m]
+            if any(isinstance(n, ast.While) for n in ast.walk(node)):
+                return True
+        for m in sorted(members):
+            for c in callees_of(self.mod, self.mod.funcs[m]):
+                if c not in members and self.require(c, at).uses_fuel:
+                    return True
+        return False
+
+    def rec_type(self, head: str) -> str:
+        ft = self.inprogress.get(head) or self.done[head]
+        tys = [lean_type_atom(ty) for _, ty, _ in ft.kept_params()]
+        return " → ".join(tys + [f"Except {self.mod.profile.err} {lean_type_atom(ft.ret_annot)}"])
+
+    # ---- str parameters: message only (dropped) or data
+
+    def str_param_kind(self, pyname: str, pname: str, seen=None) -> str:
+        """'str' when the parameter only flows into exception arguments (dropped from the Lean text),
+        'cstr' (code points) when `.strip()` / `.encode(..)` is applied to it, 'ustr' (UTF-8 octets) otherwise"""
+        seen = seen or set()
+        if (pyname, pname) in seen:
+            return "str"                       # coinductively dead
+        seen = seen | {(pyname, pname)}
+        node = self.mod.funcs[pyname]
+        dead_nodes = set()
+        methods = set()
+        for n in ast.walk(node):
+            if isinstance(n, ast.Raise):
+                for m in ast.walk(n):
+                    dead_nodes.add(id(m))
+            if isinstance(n, ast.Call):
+                q = None
+                if isinstance(n.func, ast.Name):
+                    q = n.func.id
+                elif isinstance(n.func, ast.Attribute) and isinstance(n.func.value, ast.Name):
+                    q = f"{n.func.value.id}.{n.func.attr}"
+                    if isinstance(n.func.value, ast.Name) and n.func.value.id == pname:
+                        methods.add(n.func.attr)
+                names = None
+                if q in self.mod.profile.externals:
+                    names = [(a, t_) for a, t_ in self.mod.profile.externals[q][1]]
+                elif q in self.mod.funcs:
+                    cn = self.mod.funcs[q]
+                    cargs = list(cn.args.args)
+                    if "." in q:
+                        cargs = cargs[1:]
+                    names = []
+                    for a in cargs + list(cn.args.kwonlyargs):
+                        try:
+                            t_ = self.mod.ann_type(a.annotation)
+                        except Exception:
+                            t_ = None
+                        if t_ == "str":
+                            t_ = self.str_param_kind(q, a.arg, seen)
+                        names.append((a.arg, t_))
+                if names is not None:
+                    pairs = list(zip([a for a, _ in names], n.args)) + [(kw.arg, kw.value) for kw in n.keywords]
+                    kinds = dict(names)
+                    for a, v in pairs:
+                        if isinstance(v, ast.Name) and v.id == pname and kinds.get(a) == "str":
+                            dead_nodes.add(id(v))
+        live = [n for n in ast.walk(node)
+                if isinstance(n, ast.Name) and n.id == pname and isinstance(n.ctx, ast.Load) and id(n) not in dead_nodes]
+        if not live:
+            return "str"
+        if methods & {"strip", "encode"}:
+            return "cstr"
+        return "ustr"
 
     def require(self, pyname: str, at) -> FuncTranslator:
         if pyname in self.done:
@@ -1345,11 +1992,31 @@ class Generator:
         if pyname in self.failed:
             raise Unsupported(at, f"calls {pyname}, which is untranslated")
         if pyname in self.stack:
+            if self.head_of.get(pyname) == pyname:
+                return self.inprogress[pyname]          # a recursive call of the entry of the group
             raise Unsupported(at, f"recursion through {pyname}")
+        if pyname in self.scc_problem:
+            self.failed[pyname] = self.scc_problem[pyname]
+            self.order.append(pyname)
+            raise Unsupported(at, f"calls {pyname}, which is untranslated ({self.scc_problem[pyname]})")
+        head = self.head_of.get(pyname)
+        if head is not None and head != pyname and head not in self.stack:
+            # the members of a recursive group are produced while its entry is being translated
+            try:
+                self.require(head, at)
+            except Unsupported:
+                pass
+            if pyname in self.done:
+                return self.done[pyname]
+            if pyname not in self.failed:
+                self.failed[pyname] = f"its recursive group (entry {head}) is untranslated"
+                self.order.append(pyname)
+            raise Unsupported(at, f"calls {pyname}, which is untranslated")
         node = self.mod.funcs[pyname]
         self.stack.append(pyname)
         try:
             ft = FuncTranslator(self.mod, self, pyname, node)
+            self.inprogress[pyname] = ft
             try:
                 ft.text = ft.translate()
             except Unsupported as e:
@@ -1378,15 +2045,17 @@ class Generator:
     def render(self, src_label: str) -> str:
         out = []
         w = out.append
+        prof = self.mod.profile
         w("/- GENERATED by harness/py2lean.py from the AST of " + src_label + ". Do not edit.")
-        w("   One Lean definition per Python function / loop; see design_notes/py2lean.md. -/")
-        w("import Verif.PyRt")
+        w(f"   One Lean definition per Python function / loop; see {prof.note}. -/")
+        for imp in prof.imports:
+            w(f"import {imp}")
         w("")
         w("set_option linter.unusedVariables false")
         w("")
-        w("namespace Verif.Asn1Gen")
+        w(f"namespace {prof.namespace}")
         w("")
-        w("open Verif Verif.PyRt")
+        w(f"open {prof.opens}")
         w("")
         for ename, members in self.mod.enums.items():
             w(f"/-- values of the members of `{ename}` (an `enum.IntEnum`), in source order -/")
@@ -1408,14 +2077,16 @@ class Generator:
                 w(f"/-- `{pyname}` is outside the translated subset -/")
                 w(f'def {lname}_untranslated : String := "{reason}"')
             w("")
-        w("end Verif.Asn1Gen")
+        w(f"end {prof.namespace}")
         return "\n".join(out) + "\n"
 
 
 def main(argv):
     repo = os.environ.get("VERIF_REPO", "/repo")
-    src = os.path.join(repo, "src", "sansldap", "asn1.py")
-    out_path = DEFAULT_OUT
+    srcs = {"asn1": os.path.join(repo, "src", "sansldap", "asn1.py"),
+            "filter": os.path.join(repo, "src", "sansldap", "_filter.py")}
+    outs = {"asn1": DEFAULT_OUT, "filter": DEFAULT_FILTER_OUT}
+    only = None
     check = False
     i = 0
     while i < len(argv):
@@ -1423,37 +2094,59 @@ def main(argv):
             check = True
         elif argv[i] == "--out":
             i += 1
-            out_path = argv[i]
+            outs["asn1"] = argv[i]
         elif argv[i] == "--src":
             i += 1
-            src = argv[i]
+            srcs["asn1"] = argv[i]
+        elif argv[i] == "--filter-out":
+            i += 1
+            outs["filter"] = argv[i]
+        elif argv[i] == "--filter-src":
+            i += 1
+            srcs["filter"] = argv[i]
+        elif argv[i] == "--only":
+            i += 1
+            only = argv[i]
+            if only not in srcs:
+                print(__doc__)
+                return 2
         else:
             print(__doc__)
             return 2
         i += 1
-    with open(src, "r", encoding="utf-8") as fh:
-        tree = ast.parse(fh.read(), filename=src)
-    mod = Module(tree)
-    gen = Generator(mod)
-    gen.run(TARGETS)
-    text = gen.render("src/sansldap/asn1.py")
-    for pyname, reason in gen.failed.items():
-        print(f"py2lean: {pyname}: untranslated: {reason}", file=sys.stderr)
-    if check:
-        try:
-            with open(out_path, "r", encoding="utf-8") as fh:
-                same = fh.read() == text
-        except FileNotFoundError:
-            same = False
-        if not same:
-            print(f"py2lean: {out_path} differs from what the source generates now", file=sys.stderr)
-            return 1
-    else:
-        os.makedirs(os.path.dirname(out_path), exist_ok=True)
-        with open(out_path, "w", encoding="utf-8") as fh:
-            fh.write(text)
-        print(f"py2lean: wrote {os.path.normpath(out_path)} ({len(gen.done)} functions, {len(gen.failed)} untranslated)")
-    return 3 if gen.failed else 0
+    any_failed = False
+    stale = False
+    for pname in ("asn1", "filter"):
+        if only is not None and only != pname:
+            continue
+        prof = Profile(pname)
+        src, out_path = srcs[pname], outs[pname]
+        with open(src, "r", encoding="utf-8") as fh:
+            tree = ast.parse(fh.read(), filename=src)
+        mod = Module(tree, prof)
+        gen = Generator(mod)
+        gen.run(prof.targets)
+        text = gen.render("src/sansldap/" + prof.file)
+        for pyname, reason in gen.failed.items():
+            print(f"py2lean: {pyname}: untranslated: {reason}", file=sys.stderr)
+        any_failed = any_failed or bool(gen.failed)
+        if check:
+            try:
+                with open(out_path, "r", encoding="utf-8") as fh:
+                    same = fh.read() == text
+            except FileNotFoundError:
+                same = False
+            if not same:
+                print(f"py2lean: {out_path} differs from what the source generates now", file=sys.stderr)
+                stale = True
+        else:
+            os.makedirs(os.path.dirname(out_path), exist_ok=True)
+            with open(out_path, "w", encoding="utf-8") as fh:
+                fh.write(text)
+            print(f"py2lean: wrote {os.path.normpath(out_path)} ({len(gen.done)} functions, {len(gen.failed)} untranslated)")
+    if stale:
+        return 1
+    return 3 if any_failed else 0
 
 
 if __name__ == "__main__":
